@@ -1020,6 +1020,25 @@ fn damage(rng: &mut Rng, r: &mut Resp, what: &str, world: &World, target_type: u
             }
             hit
         }
+        "signer-is-an-insecure-zone" => {
+            // the signature is replaced by one that names an unsigned zone (insecure.test.) as its signer
+            let ins = world.zones[3].apex.clone();
+            let mut hit = false;
+            for x in r.answer.iter_mut().chain(r.authority.iter_mut()) {
+                if x.1 == T_RRSIG && u16::from_be_bytes([x.3[0], x.3[1]]) == target_type && !is_below(&x.0, &ins) {
+                    let mut p = 18;
+                    while x.3[p] != 0 {
+                        p += 1 + x.3[p] as usize;
+                    }
+                    let mut n = x.3[..18].to_vec();
+                    n.extend_from_slice(&ins);
+                    n.extend(rng.bytes(64));
+                    x.3 = n;
+                    hit = true;
+                }
+            }
+            hit
+        }
         "expired" | "not-yet-valid" => {
             // re-sign the target RRset with a validity period that does not include now
             let now = now_secs();
@@ -1343,7 +1362,7 @@ fn one_world(c: &mut Ctx, rt: &tokio::runtime::Runtime, fam: &str, idx: u64) {
         // ---- damage to the answer under validation
         ctx::step("damaged answer");
         let target = if resp.answer.iter().any(|x| x.1 == q.1) { q.1 } else if resp.answer.iter().any(|x| x.1 == T_CNAME) { T_CNAME } else if resp.authority.iter().any(|x| x.1 == T_NSEC) { T_NSEC } else if resp.authority.iter().any(|x| x.1 == T_NSEC3) { T_NSEC3 } else { T_SOA };
-        let msg_faults: &[&str] = &["drop-rrsigs", "corrupt-signature", "alter-rdata", "wrong-signer", "expired", "not-yet-valid", "drop-proof", "drop-all-proofs", "drop-soa", "unsigned-extra-rrset", "pretend-unsigned"];
+        let msg_faults: &[&str] = &["drop-rrsigs", "corrupt-signature", "alter-rdata", "wrong-signer", "expired", "not-yet-valid", "drop-proof", "drop-all-proofs", "drop-soa", "unsigned-extra-rrset", "pretend-unsigned", "signer-is-an-insecure-zone"];
         for f in msg_faults {
             if !rng.chance(1, 2) && c.tier != ctx::Tier::Thorough {
                 continue;
@@ -1371,6 +1390,9 @@ fn one_world(c: &mut Ctx, rt: &tokio::runtime::Runtime, fam: &str, idx: u64) {
                 }
                 Out::State("Secure") => {
                     c.violation(&format!("secure-despite:{}:{}", f, resp.kind), &format!("a {} answer ({} TYPE{}) damaged by [{}] (covering TYPE{}) still validates as Secure", resp.kind, w::name_text(&q.0), q.1, f, t), c.replay_of(fam, idx, ex(q, json!({"fault": f, "wire": hex(&wire2)}))));
+                }
+                Out::State("Insecure") if *f == "signer-is-an-insecure-zone" && want == "Secure" && !either => {
+                    c.violation(&format!("downgrade-accepted:{}:{}", f, resp.kind), &format!("a {} answer ({} TYPE{}) from a secure zone whose signature (covering TYPE{}) was replaced by one naming the unsigned zone insecure.test. as signer validates as Insecure: the data of a signed zone is accepted without any valid signature", resp.kind, w::name_text(&q.0), q.1, t), c.replay_of(fam, idx, ex(q, json!({"fault": f, "wire": hex(&wire2)}))));
                 }
                 Out::State(s) => {
                     c.count(&format!("damaged:{}", f), 1);
